@@ -743,8 +743,18 @@ func reMatchesAnyKeyInPath(keyPath *[]string, pattern *regexp.Regexp) bool {
 		return false
 	}
 	for _, key := range *keyPath {
+		if strings.HasPrefix(key, "$") {
+			// operators and extended-JSON wrappers are not field names
+			continue
+		}
 		if pattern.MatchString(key) {
 			return true
+		}
+		// dot notation names every field on the way: "patient.SSN" is under patient and SSN
+		for _, name := range strings.Split(key, ".") {
+			if pattern.MatchString(name) {
+				return true
+			}
 		}
 	}
 	return false
